@@ -176,6 +176,16 @@ static std::vector<VecProfile> build_profiles() {
     VecProfile p = ps.back(); p.name = "growth_big"; p.bigAppend = 5000; p.room = 12000;
     ps.push_back(p);
   }
+  // long variants (thorough tier): longer histories, larger containers
+  size_t base = ps.size();
+  for (size_t i = 0; i < base; ++i) {
+    const std::string &n = ps[i].name;
+    if (n == "hist" || n == "fault" || n == "inline" || n == "reloc" || n == "swap2" || n == "limit") {
+      VecProfile p = ps[i];
+      p.name = n + "_long"; p.meanLen = ps[i].meanLen * 4; p.maxLen = 400; p.room = ps[i].room * 2;
+      ps.push_back(p);
+    }
+  }
   return ps;
 }
 static const std::vector<VecProfile> &profiles() {
@@ -745,6 +755,7 @@ struct Runner {
         if (payMod && n > 4000) n = 4000;
         if (!n) return false;
         gen_vals(n);
+        if (io.variant % 8 == 1) for (Val &v : io.vals) v = Val{0, 0};  // the resize(size()+1) method appends value-initialised elements
         return true;
       }
       case V_RELOCATE:
